@@ -69,8 +69,20 @@ class HA:
 def scenario_requests(sess, rng, r, nep, plan, label):
     """plan: per endpoint outcome for ONE user request, plus an arrival order (permutation of endpoints)."""
     outcomes, order = plan
-    ha = HA(sess, rng, r, nep, 'sign', label)
     c = sess.cmd
+    if sum(map(ord, label)) % 3 == 0:
+        # prelude: an earlier HA service of this context is released while one of its requests is still in flight (its endpoints
+        # never answer); whatever the context recycles from it must not influence the service under test
+        pre = HA(sess, rng, r, 2 + sum(map(ord, label)) % 2, 'sign', label + '-abandoned')
+        q = c('async_add 0 0 sign %s 0 abandoned' % R.H(1, b'abandoned/' + label.encode()).hex())
+        for _ in range(2):
+            pre.tick()
+            pre.run()
+        c('async_free 0')
+        for fd in [f for f, i2 in sess.tcp.items() if isinstance(f, int) and i2['open']]:
+            c('net_eof %d' % fd)
+        r.count('scenarios_after_an_abandoned_request')
+    ha = HA(sess, rng, r, nep, 'sign', label)
     for i, o in enumerate(outcomes):
         if o == 'refuse':
             c('net_ep %s 1 connect=2' % ha.hosts[i])
